@@ -13,6 +13,7 @@ from pyvc.vtypes import *  # noqa
 from pyvc.state import fresh_name, Unsupported
 
 F = "synrbl/SynRuleImputer/synthetic_rule_imputer.py"
+WF_RULE_TXT = ""
 RULE = Obj("Rule")
 PATH = List(Obj("Sol"))
 
@@ -24,8 +25,10 @@ def register(reg):
                  props=["C02", "C08"])
 
     RD = "rule_dict"
+    global WF_RULE_TXT
     WF_RULE = ("('Q' in rule['Composition'] and forall(STR, lambda k: implies(k in rule['Composition'] and k != 'Q', rule['Composition'][k] >= 1)) "
                "and exists(STR, lambda k: k != 'Q' and k in rule['Composition']))")
+    WF_RULE_TXT = WF_RULE
     WF_DB = ("forall(rule_dict, lambda rule: " + WF_RULE + " and forall(STR, lambda k: get0(rule['Composition'], k) == CompOf(rule['smiles'], k)))")
     DIFF = "as_comp(old(missing_dict['Diff_formula']))"
     GOOD = ("(forall(STR, lambda k: pathsum(solution[0], k) == old(get0(as_comp(missing_dict['Diff_formula']), k))) and "
@@ -66,6 +69,7 @@ def register(reg):
         locals_types={"dict_impute": ROW, "solution": List(PATH), "matcher": Obj("SyntheticRuleMatcher")},
         props=["C02", "C08"])
     register_constraint(reg)
+    register_utils(reg)
 
 
 def register_constraint(reg):
@@ -115,3 +119,65 @@ def register_constraint(reg):
         ],
         modifies=[],
         props=["C08"])
+
+
+def register_utils(reg):
+    """rsmi_utils.filter_data / extract_results_by_key and SyntheticRuleImputer.parallel_impute: the list plumbing of the rule-based stage"""
+    FU = "synrbl/rsmi_utils.py"
+    ROWS = List(ROW)
+    reg.contract(
+        FU, "extract_results_by_key", params={"data": ROWS, "key": STR}, returns=Tuple(ROWS, ROWS), fresh_result=True,
+        ensures=[
+            # a partition of the given rows by presence of the key, each part in the original order
+            "forall(range(0, len(result[0])), lambda k: in_list(result[0][k], data) and key in result[0][k])",
+            "forall(range(0, len(result[1])), lambda k: in_list(result[1][k], data) and not (key in result[1][k]))",
+            "len(result[0]) + len(result[1]) == len(data)",
+            "forall(range(0, len(data)), lambda j: in_list(data[j], result[0]) or in_list(data[j], result[1]))",
+        ],
+        loops={0: {"inv": [
+            "fresh(with_key) and fresh(without_key) and not (with_key is without_key)",
+            "len(with_key) + len(without_key) == _i",
+            "forall(range(0, len(with_key)), lambda k: in_list(with_key[k], data) and key in with_key[k])",
+            "forall(range(0, len(without_key)), lambda k: in_list(without_key[k], data) and not (key in without_key[k]))",
+            "forall(range(0, _i), lambda j: in_list(data[j], with_key) or in_list(data[j], without_key))",
+        ]}},
+        modifies=[],
+        locals_types={"with_key": ROWS, "without_key": ROWS},
+        props=["C08", "C02"])
+
+    reg.contract(
+        FU, "filter_data",
+        params={"data": ROWS, "unbalance_values": List(STR), "formula_key": STR, "element_key": Ty("opt", STR), "min_count": INT, "max_count": INT},
+        returns=ROWS, fresh_result=True,
+        requires=["is_none(element_key)"],   # the only way the rule-based stage calls it
+        ensures=[
+            # exactly the rows whose 'Unbalance' label is one of the requested ones (rows without the label are dropped)
+            "forall(range(0, len(result)), lambda k: in_list(result[k], data) and 'Unbalance' in result[k] and in_list(as_str(result[k]['Unbalance']), unbalance_values))",
+            "forall(range(0, len(data)), lambda j: implies('Unbalance' in data[j] and is_str(data[j]['Unbalance']) and in_list(as_str(data[j]['Unbalance']), unbalance_values), in_list(data[j], result)))",
+        ],
+        loops={0: {"inv": [
+            "fresh(filtered_data)",
+            "forall(range(0, len(filtered_data)), lambda k: in_list(filtered_data[k], data) and 'Unbalance' in filtered_data[k] and in_list(as_str(filtered_data[k]['Unbalance']), unbalance_values))",
+            "forall(range(0, _i), lambda j: implies('Unbalance' in data[j] and is_str(data[j]['Unbalance']) and in_list(as_str(data[j]['Unbalance']), unbalance_values), in_list(data[j], filtered_data)))",
+        ]}},
+        modifies=[],
+        locals_types={"filtered_data": ROWS},
+        props=["C08", "C02"])
+
+    reg.classdecl("SyntheticRuleImputer", {"rule_dict": List(Obj("Rule")), "select": STR, "ranking": VAL})
+    reg.contract(
+        F, "SyntheticRuleImputer.parallel_impute",
+        params={"self": Obj("SyntheticRuleImputer"), "missing_dict": List(ROW), "n_jobs": VAL}, returns=List(ROW), fresh_result=True,
+        requires=["self.select == 'all'",
+                  "forall(self.rule_dict, lambda rule: " + WF_RULE_TXT + " and forall(STR, lambda k: get0(rule['Composition'], k) == CompOf(rule['smiles'], k)))",
+                  "forall(range(0, len(missing_dict)), lambda j: 'Diff_formula' in missing_dict[j] and is_ref(missing_dict[j]['Diff_formula']) and "
+                  "allocated(as_comp(missing_dict[j]['Diff_formula'])) and 'Unbalance' in missing_dict[j] and 'reactants' in missing_dict[j] and "
+                  "is_str(missing_dict[j]['reactants']) and 'products' in missing_dict[j] and is_str(missing_dict[j]['products']))"],
+        ensures=[
+            # one imputed copy per row, in order; the given rows are not modified (joblib read as an order-preserving map over single_impute)
+            "len(result) == len(missing_dict)",
+            "forall(range(0, len(result)), lambda j: fresh(result[j]))",
+            "forall(range(0, len(missing_dict)), lambda j: same_map(missing_dict[j], old(mapof(missing_dict[j]))))",
+        ],
+        modifies=[],
+        props=["C08", "C02"])
